@@ -425,6 +425,10 @@ class MetadorGroup(MetadorNode):
         self._guard_path(name)
 
         node = self[name]
+        if node.name == "/":
+            # the root cannot be unlinked (the raw delete below would fail)
+            # -> refuse before any metadata is destroyed
+            raise KeyError(f"Cannot delete the root node: '{name}'")
         # clean up metadata (recursively, if a group)
         node._destroy_meta()
         # kill the actual data
